@@ -187,7 +187,8 @@ def values_equal(a, b, path, out, sym_rtol=1e-9):
         if a.shape != b.shape:
             out.append(Mismatch("%s:array-shape" % path, "%r vs %r" % (a.shape, b.shape)))
             return
-        if a.dtype.kind != b.dtype.kind:
+        ka_, kb_ = ("i" if a.dtype.kind == "u" else a.dtype.kind), ("i" if b.dtype.kind == "u" else b.dtype.kind)
+        if ka_ != kb_:     # (signed and unsigned integer arrays are both "int arrays")
             out.append(Mismatch("%s:array-dtype" % path, "%r vs %r" % (a.dtype, b.dtype)))
             return
         if a.dtype == object:
